@@ -35,8 +35,18 @@ type typeAlloc struct {
 	free []int
 }
 
+// flowPerm is a random permutation of the flow-value type ids.
+func (g *Gen) flowPerm() []int {
+	perm := g.R.Perm(len(ps.FlowTypes))
+	out := make([]int, len(perm))
+	for i, x := range perm {
+		out[i] = ps.FlowTypes[x]
+	}
+	return out
+}
+
 func (g *Gen) newAlloc() *typeAlloc {
-	free := g.R.Perm(ps.NumTypes)
+	free := g.flowPerm()
 	if g.chance(30) {
 		// the interface type 7 and its implementation 20 early, in this order: a pair of distinct
 		// flow types of which the second is assignable to the first
@@ -444,7 +454,7 @@ func (g *Gen) freshType(p *ps.Program) (int, bool) {
 			used[x] = true
 		}
 	}
-	perm := g.R.Perm(ps.NumTypes)
+	perm := g.flowPerm()
 	for _, x := range perm {
 		if !used[x] {
 			return x, true
